@@ -28,6 +28,7 @@
 #include <vector>
 
 #include <unifex/blocking.hpp>
+#include <unifex/detail/verif_hooks.hpp>
 #include <unifex/continuations.hpp>
 #include <unifex/get_stop_token.hpp>
 #include <unifex/inplace_stop_token.hpp>
@@ -136,6 +137,7 @@ public:
   }
 
   void request_stop() noexcept {
+    UNIFEX_VERIF_YIELD("algrace.war_cb_add");
     if (refCount_.fetch_add(1, std::memory_order_relaxed) == 0) {
       // deliver_result already called
       return;
@@ -146,6 +148,7 @@ public:
   }
 
   void element_complete() noexcept {
+    UNIFEX_VERIF_YIELD("algrace.war_sub");
     if (refCount_.fetch_sub(1, std::memory_order_acq_rel) == 1) {
       stopCallback_.destruct();
 
@@ -214,6 +217,7 @@ struct _element_receiver<Receiver, Sender>::type final {
 
   template <typename Error>
   void set_error(Error&& error) noexcept {
+    UNIFEX_VERIF_YIELD("algrace.war_xchg");
     if (!op_.doneOrError_.exchange(true, std::memory_order_relaxed)) {
       op_.error_.emplace(
           std::in_place_type_t<std::decay_t<Error>>{}, (Error &&) error);
@@ -223,6 +227,7 @@ struct _element_receiver<Receiver, Sender>::type final {
   }
 
   void set_done() noexcept {
+    UNIFEX_VERIF_YIELD("algrace.war_xchg");
     if (!op_.doneOrError_.exchange(true, std::memory_order_relaxed)) {
       op_.stopSource_.request_stop();
     }
